@@ -13,7 +13,8 @@ use serde_json::{json, Value};
 
 pub const ALPHABET: [char; 18] = ['"', '\\', '~', '%', '(', ')', ';', '#', '\'', '\n', '\t', '\u{1}', '\u{7f}', 'é', '日', 'a', ' ', '*'];
 
-pub const CARRIERS: [&str; 39] = [
+pub const CARRIERS: [&str; 44] = [
+    "user?", "group?", "regex?", "fstype?", "lname?",
     "pool+long2", "xattr-match-value+long2", "printf-literal+long2", "name+long2",
     "pool+long", "xattr+long", "xattr-match-value+long", "printf-literal+long", "name+long",
     "name+framed", "iname+framed", "path+framed", "ipath+framed", "pool+framed", "xattr+framed", "xattr-match-attr+framed", "xattr-match-value+framed", "printf-literal+framed", "printf-octal+framed",
@@ -109,6 +110,12 @@ fn tree_for_base(carrier: &str, s: &str) -> Option<E> {
             E::A(Act::Printf(f))
         }
         "device" => E::T(Tst::True),
+        // string-valued tests the target cannot express: refused whatever the string is
+        "user?" => E::T(Tst::U(UTest::User(st))),
+        "group?" => E::T(Tst::U(UTest::Group(st))),
+        "regex?" => E::T(Tst::U(UTest::Regex(st))),
+        "fstype?" => E::T(Tst::U(UTest::FsType(st))),
+        "lname?" => E::T(Tst::U(UTest::LName(st))),
         _ => return None,
     })
 }
@@ -188,6 +195,17 @@ pub fn judge(carrier: &str, s: &str) -> Verdict {
         class = "device path";
     }
     let s0 = neutral(s);
+    if carrier.ends_with('?') {
+        // whether such a test is accepted must not depend on the characters of its string
+        let (a, b) = (compile_text(carrier, s), compile_text(carrier, &s0));
+        match (&a, &b) {
+            (Err(e), _) | (_, Err(e)) if e.contains("panicked") => return Verdict::Fail(format!("{carrier} with {s:?}: {e}")),
+            (Err(_), Err(_)) => return Verdict::Pass { nt: true, class: "refused whatever the characters of the string" },
+            (Ok(Some(p)), Err(_)) => return Verdict::Fail(format!("{carrier}: refused for the neutral string {s0:?} but accepted for {s:?} - the characters of a user string decide the structure of the program:\n{p}")),
+            (Err(_), Ok(Some(_))) => return Verdict::Fail(format!("{carrier}: accepted for the neutral string {s0:?} but refused for {s:?} - the characters of a user string decide whether there is a program")),
+            _ => {}
+        }
+    }
     let p = match compile_text(carrier, s) {
         Ok(Some(p)) => p,
         Ok(None) => return Verdict::Skip("carrier cannot hold this string"),
@@ -437,6 +455,16 @@ pub fn run(ctx: &Ctx) -> Report {
     total.extra.insert("dictionary_tokens".into(), json!(dict.len()));
     total.exhaustive_parts.push("every carrier x every token of a dictionary extracted from the code generator's sources (format placeholders such as {mdt}, emitted literals)".into());
 
+    // numerals of other scripts, plain numbers, case-mapping oddities, per carrier: a string is data
+    // whatever Unicode says about its characters
+    let mut stn = Stats::new();
+    for carrier in CARRIERS {
+        for w in ["42", "0", "٣٤", "²", "½", "Ⅷ", "１２", "७", "1e3", "-1", "+5", "#t", "#f", "İ", "ß", "ǅ", "ﬁ", "\u{2028}", "\u{feff}x", "e\u{301}"] {
+            let v = judge(carrier, w);
+            stn.record(&v, stable_hash(&(carrier, w)), true, || case_json(carrier, w));
+        }
+    }
+    total.merge(stn);
     // look-alikes of the characters that need escaping, per carrier
     let mut stl = Stats::new();
     for carrier in CARRIERS {
